@@ -45,6 +45,7 @@ type g7Conn struct {
 	st       *state.Registry
 	protocol proto.Protocol
 	connType phase.ConnectionType
+	remote   net.Addr
 	writeErr error // returned (and nothing recorded) by every write while set
 	failAt   int   // if >0: the failAt-th write from now fails once with errG7Write
 
@@ -78,7 +79,12 @@ func (c *g7Conn) Close() error {
 }
 func (c *g7Conn) State() *state.Registry   { return c.st }
 func (c *g7Conn) Protocol() proto.Protocol { return c.protocol }
-func (c *g7Conn) RemoteAddr() net.Addr     { return &net.TCPAddr{IP: net.IPv4(10, 9, 0, 1), Port: 50001} }
+func (c *g7Conn) RemoteAddr() net.Addr {
+	if c.remote != nil {
+		return c.remote
+	}
+	return &net.TCPAddr{IP: net.IPv4(10, 9, 0, 1), Port: 50001}
+}
 func (c *g7Conn) LocalAddr() net.Addr      { return &net.TCPAddr{IP: net.IPv4(10, 0, 0, 1), Port: 25565} }
 func (c *g7Conn) Type() phase.ConnectionType {
 	if c.connType != nil {
